@@ -1,6 +1,6 @@
 ------------------------------ MODULE C03_Gen ------------------------------
 (* Scenario generator for C03: all sequences up to length N over the request-stream frame alphabet             *)
-(*   {HEADERS, DATA(0), DATA(n), unknown(0), unknown(n), CANCEL_PUSH, SETTINGS, GOAWAY,       *)
+(*   {HEADERS, DATA(0), truncated DATA, truncated unknown, DATA(n), unknown(0), unknown(n), CANCEL_PUSH, SETTINGS, GOAWAY,       *)
 (*    MAX_PUSH_ID, PUSH_PROMISE, HTTP/2-reserved}                                                                *)
 (* x ending {FIN, RESET, still open} x chunkings {one chunk, frame by frame, byte by byte} x {server, client}.  *)
 (* The scripted peer's bytes are written here, byte for byte; nothing of h3 takes part in producing them.        *)
@@ -13,7 +13,7 @@ ReqSection == <<0, 0, 209, 215, 80, 1, 97, 193>>     \* :method GET, :scheme htt
 RespSection == <<0, 0, 217>>                         \* :status 200
 TrailerSection == <<0, 0, 33, 120, 1, 121>>          \* x: y   (literal name, literal value)
 
-Letters == {"H", "D0", "Dn", "U0", "Un", "CP", "SET", "GA", "MP", "PP", "H2"}
+Letters == {"H", "D0", "Dn", "U0", "Un", "CP", "SET", "GA", "MP", "PP", "H2", "PD", "PX"}
 \* first: is this the first HEADERS frame of the sequence (the message head) or a later one (trailers)?
 FrameOf(x, role, first) ==
     CASE x = "H" -> Frame(1, IF first THEN (IF role = "server" THEN ReqSection ELSE RespSection) ELSE TrailerSection)
@@ -27,6 +27,8 @@ FrameOf(x, role, first) ==
       [] x = "MP" -> Frame(13, <<4>>)
       [] x = "PP" -> Frame(5, <<4, 0, 0>>)
       [] x = "H2" -> Frame(9, <<0>>)
+      [] x = "PD" -> <<0, 5, 97>>                       \* DATA frame cut short (what follows, if anything, becomes its payload)
+      [] x = "PX" -> <<33, 4, 0>>                       \* unknown-type frame cut short
 
 Flatten(ss) == IF ss = <<>> THEN <<>> ELSE ss[1] \o (IF Len(ss) = 1 THEN <<>> ELSE LET RECURSIVE F(_) F(i) == IF i > Len(ss) THEN <<>> ELSE ss[i] \o F(i + 1) IN F(2))
 
@@ -53,7 +55,8 @@ Scn(seq, e, how, role) ==
 
 VARIABLES seq, out
 Init == seq = <<>> /\ out = <<>>
-Extend == out = <<>> /\ Len(seq) < N /\ \E x \in Letters : seq' = Append(seq, x) /\ UNCHANGED out
+\* a truncated frame can only be the last thing on the stream
+Extend == out = <<>> /\ Len(seq) < N /\ (IF seq = <<>> THEN TRUE ELSE seq[Len(seq)] \notin {"PD", "PX"}) /\ \E x \in Letters : seq' = Append(seq, x) /\ UNCHANGED out
 Finish == out = <<>> /\ \E e \in {"fin", "reset", "open"}, how \in {"one", "frames", "bytes"}, role \in {"server", "client"} :
              out' = Scn(seq, e, how, role) /\ UNCHANGED seq
 Next == Extend \/ Finish
